@@ -144,7 +144,9 @@ func (s *Signature) decodeTimeAndTimeZone(b []byte) {
 	if err1 != nil || err2 != nil {
 		return
 	}
-	if tzhours < 0 {
+	// The sign belongs to the whole offset: "-0030" parses to zero hours,
+	// so it has to be read from the sign character, not from tzhours.
+	if timezone[0] == '-' {
 		tzmins *= -1
 	}
 
